@@ -252,6 +252,12 @@ class Check:
         self.known_hits = {}      # finding id -> count
         self.known = load_known(pid)
         os.makedirs(REPLAY, exist_ok=True)
+        for f in os.listdir(REPLAY):          # replay files of earlier runs of this check are obsolete
+            if f.startswith("%s-%s-" % (pid, tier)):
+                try:
+                    os.remove(os.path.join(REPLAY, f))
+                except OSError:
+                    pass
         self.work = workdir(pid)
 
     def add(self, key, n=1):
